@@ -39,6 +39,22 @@ def sources(tier, seed, ctx):
                      'storage': rng.choice(['built', 'built', 'shuffled']),
                      # minimise the result of the first call once more (its storage order is not topological any more)
                      'twice': rng.random() < 0.25, 'ss': rng.randrange(10**6)})
+    # labels that differ only in letter case / zero padding on every sixth source (whatever order leaves are put in, it has to be
+    # the same order everywhere)
+    for j, s_ in enumerate(srcs):
+        if j % 6 == 1 and s_['storage'] == 'built':
+            s_['twins'] = True
+    # many inputs (11, 12): more input assignments than any batch a simulation may be cut into
+    for j in range(4 if tier == 'quick' else 30):
+        ni = 11 + j % 2
+        net = gen.random_netlist(rng, ni=ni, ng=rng.randint(8, 14), types=SUPPORTED, amax=2, locality=0.6)
+        outs = [ni + len(net[1]), ni + len(net[1]) - 1]
+        srcs.append({'net': [net[0], net[1]], 'outs': outs, 'basis': rng.choice(['XAIG', 'AIG']), 'basis_enum': False, 'validation': j % 2 == 0,
+                     'max_size': 5, 'cut_size': 4, 'cut_limit': 8, 'time_limit': 0, 'hashseed': 0, 'cutseed': 0, 'storage': 'built', 'twice': False, 'ss': 0})
+        # ... and the agent's shape: a product of the first inputs plus a later one
+        gs = [['AND', [1, 2]], ['OR', [ni + 1, 3]]] + [['XOR', [ni + 2 + k, 4 + k]] for k in range(ni - 3)]
+        srcs.append({'net': [ni, gs], 'outs': [ni + len(gs), ni + 2], 'basis': 'XAIG', 'basis_enum': False, 'validation': False,
+                     'max_size': 5, 'cut_size': 4, 'cut_limit': 8, 'time_limit': 0, 'hashseed': 0, 'cutseed': 0, 'storage': 'built', 'twice': False, 'ss': 0})
     # wide cuts: 6 and 7 leaves (beyond the default cut_size), cones that are wide AND-OR-XOR trees over 7 inputs so that a
     # 7-leaf cut exists and a smaller equivalent is found quickly; the solver runs under a time limit
     for j in range(6 if tier == 'quick' else 40):
